@@ -659,3 +659,16 @@ Proof.
            ++ intros r Hr. rewrite (hq_regs _ _ H2). simpl. apply R5; auto.
       * intros s' H'. exact H'.
 Qed.
+
+Lemma relocate_exec_explicit :
+  forall (src dst : nat -> loc) (n : nat) (exec : M unit) (fp : loc -> Prop) (P : heap -> Prop) (R : heap -> heap -> Prop),
+    exec_spec exec fp P R -> (forall j, j < n -> ~ fp (src j) /\ ~ fp (dst j)) ->
+    forall c s, range_pre src dst n (hp s) -> P (hp s) ->
+      (forall s', relocate_exec c src dst n exec s = (Exn, s') -> unchanged (hp s) (hp s')) /\
+      (forall s', relocate_exec c src dst n exec s <> (Stuck, s')) /\
+      (forall s', relocate_exec c src dst n exec s = (Ok tt, s') -> moved_range src dst n fp (hp s) (hp s')).
+Proof.
+  intros src dst n exec fp P R Hex Hfp c s Hpre HP.
+  pose proof (relocate_exec_spec src dst n exec fp P R Hex Hfp c s Hpre HP) as W.
+  unfold wp in W. split; [|split]; intros s' E; rewrite E in W; auto. apply W.
+Qed.
